@@ -50,14 +50,31 @@ pub fn enc_signal(o: &Object, out: &mut Vec<i64>) {
 }
 
 pub fn exec(c: &[i64]) -> Vec<i64> {
+    let expanded: Vec<i64>;
+    let c = if c[0] == -21 { expanded = vec![39, 0, 2, 1, 255, 5, 5, 3, 1, 4, c[1], 0, 0, 0, 5, 2]; &expanded[..] } else { c };
     let r = std::panic::catch_unwind(|| run(c));
     r.unwrap_or_else(|_| vec![-1])
 }
 
+#[path = "/repo/glonax-server/src/config.rs"]
+#[allow(dead_code)]
+mod server_config;
+
+/// the k-th [[j1939]] network of the shipped example configuration, loaded by the real
+/// `glonax::from_file` into the server's real `Config`
+pub fn shipped_network(k: usize) -> Option<NetworkConfig> {
+    let cfg: server_config::Config = glonax::from_file("/repo/contrib/etc/glonax.conf").ok()?;
+    cfg.j1939.get(k).cloned()
+}
+
 fn run(c: &[i64]) -> Vec<i64> {
-    let iface = format!("a{}t{:?}", NEXT_IF.fetch_add(1, Ordering::SeqCst), std::thread::current().id()).replace(['(', ')', 'T', 'h', 'r', 'e', 'd', 'I'], "");
-    let (toml_s, mut i) = config_toml(&iface, c);
-    let cfg: NetworkConfig = match toml::from_str(&toml_s) { Ok(c) => c, Err(_) => return vec![-2] };
+    let (cfg, iface, mut i): (NetworkConfig, String, usize) = if c[0] == -20 {
+        match shipped_network(c[1] as usize) { Some(n) => { let ifc = n.interface.clone(); (n, ifc, 2) } None => return vec![-2] }
+    } else {
+        let iface = format!("a{}t{:?}", NEXT_IF.fetch_add(1, Ordering::SeqCst), std::thread::current().id()).replace(['(', ')', 'T', 'h', 'r', 'e', 'd', 'I'], "");
+        let (toml_s, i) = config_toml(&iface, c);
+        match toml::from_str(&toml_s) { Ok(c) => (c, iface, i), Err(_) => return vec![-2] }
+    };
     let rt = tokio::runtime::Builder::new_current_thread().enable_all().build().unwrap();
     let mut bus = Bus::new(&iface);
     let mut auth = { let _g = rt.enter(); NetworkAuthority::new(cfg) };
